@@ -33,8 +33,10 @@ Definition abs_rule (a : nat) : nat := if Nat.eqb a 0 then a else a.
 
 Record elem := {
   e_subs : list (nat * nat);   (* element.sub_elements: (reference_value_size, embedded_superdegree) *)
-  e_pdeg : list nat            (* per flat PHYSICAL component (row major in ufl_shape): the
+  e_pdeg : list nat;           (* per flat PHYSICAL component (row major in ufl_shape): the
                                   embedded_superdegree of the sub-element that owns the component *)
+  e_sym : bool;                (* isinstance(element.pullback, SymmetricPullback) *)
+  e_refsize : nat              (* element.reference_value_size *)
 }.
 Record tinfo := {
   t_deg : nat;                 (* degree the terminal handlers return for the whole terminal *)
@@ -72,8 +74,13 @@ Fixpoint all_fixed (mi : list idx) : option (list nat) :=
 
 Definition is_formarg (k : nat) : bool := Nat.eqb k 0 || Nat.eqb k 1.   (* Coefficient, Argument *)
 
-(* the degree [indexed] finds by its walk, None when it falls through to [return A] *)
-Definition indexed_walk (ti : cfg) (a : expr) (mi : list idx) : option nat :=
+(* the degree [indexed] finds by its walk, None when it falls through to [return A].
+   fx = false: the code as pinned (walks reference sizes with the physical flat component for every
+   element with sub-elements); fx = true: the code after fixes/C18-indexed-physical-owner.diff, which
+   walks only if the pullback is not symmetric and product(op.ufl_shape) == reference_value_size.
+   Which variant /repo implements is decided on every run by the AST translator (C18_rules.py). *)
+Definition shape_size (sh : list nat) : nat := fold_right Nat.mul 1 sh.
+Definition indexed_walk (fx : bool) (ti : cfg) (a : expr) (mi : list idx) : option nat :=
   match a with
   | Term k id sh =>
       if is_formarg k then
@@ -81,7 +88,9 @@ Definition indexed_walk (ti : cfg) (a : expr) (mi : list idx) : option nat :=
         | Some c, Some el =>
             match e_subs el with
             | [] => None
-            | _ => if Nat.eqb (length mi) (length sh) then walk (e_subs el) (flatten c (strides sh)) 0
+            | _ => if Nat.eqb (length mi) (length sh)
+                      && (negb fx || (negb (e_sym el) && Nat.eqb (shape_size sh) (e_refsize el)))
+                   then walk (e_subs el) (flatten c (strides sh)) 0
                    else None
             end
         | _, _ => None
@@ -89,14 +98,15 @@ Definition indexed_walk (ti : cfg) (a : expr) (mi : list idx) : option nat :=
       else None
   | _ => None
   end.
-Definition indexed_rule (ti : cfg) (a : expr) (mi : list idx) (A : nat) : nat :=
-  match indexed_walk ti a mi with Some d => d | None => A end.
+Definition indexed_rule (fx : bool) (ti : cfg) (a : expr) (mi : list idx) (A : nat) : nat :=
+  match indexed_walk fx ti a mi with Some d => d | None => A end.
 
 Definition int_exponent (b : expr) : option Z := match b with IntV z => Some z | _ => None end.
 
 Section Estimate.
 Variable quad : bool.          (* some domain of the expression has a quadrilateral/hexahedron cell *)
 Variable ti : cfg.
+Variable fx : bool.            (* which variant of [indexed] (see indexed_walk) *)
 
 Fixpoint estimate (e : expr) : nat :=
   match e with
@@ -108,7 +118,7 @@ Fixpoint estimate (e : expr) : nat :=
   | Power a b => power_rule (estimate a) (int_exponent b)
   | Abs a => abs_rule (estimate a)
   | Conj a | Real a | Imag a => estimate a
-  | Indexed a mi => indexed_rule ti a mi (estimate a)
+  | Indexed a mi => indexed_rule fx ti a mi (estimate a)
   | IndexSum a _ _ => estimate a
   | ComponentTensor a _ => estimate a
   | ListTensor es => max_degrees (map estimate es)
@@ -183,7 +193,7 @@ Definition cdeg (k id : nat) (c : list nat) : nat :=
 (* guard of the partial theorem: wherever [indexed] takes a sub-element's degree, that degree
    dominates the degree of the sub-element that really owns the physical component *)
 Definition indexed_ok (a : expr) (mi : list idx) : bool :=
-  match indexed_walk ti a mi, a, all_fixed mi with
+  match indexed_walk fx ti a mi, a, all_fixed mi with
   | Some d, Term k id sh, Some c =>
       (if list_eq_dec Nat.eq_dec sh (t_shape (ti k id)) then true else false) && Nat.leb (cdeg k id c) d
   | Some _, _, _ => false
@@ -344,8 +354,8 @@ End Interp.
 
 (* [estimate] is the interpretation of [table]: one lemma per operator node, for all operand degrees *)
 Section TableAgrees.
-Variables (quad : bool) (ti : cfg).
-Notation est := (estimate quad ti).
+Variables (quad : bool) (ti : cfg) (fx : bool).
+Notation est := (estimate quad ti fx).
 Lemma tbl_literal : dval quad [] 0 (table h_constant_value) = Some 0. Proof. reflexivity. Qed.
 Lemma tbl_sum a b : dval quad [est a; est b] 0 (table h_sum) = Some (est (Sum a b)). Proof. reflexivity. Qed.
 Lemma tbl_product a b : dval quad [est a; est b] 0 (table h_product) = Some (est (Product a b)). Proof. reflexivity. Qed.
@@ -384,7 +394,7 @@ Lemma tbl_dot a b : dval quad [est a; est b] 0 (table h_dot) = Some (est (Dot a 
 Lemma tbl_cross a b : dval quad [est a; est b] 0 (table h_cross) = Some (est (Cross a b)). Proof. reflexivity. Qed.
 Lemma tbl_power a b : dval quad [est a; est b] (power_rule (est a) (int_exponent b)) (table h_power)
                       = Some (est (Power a b)). Proof. reflexivity. Qed.
-Lemma tbl_indexed a mi : dval quad [est a; 0] (indexed_rule ti a mi (est a)) (table h_indexed)
+Lemma tbl_indexed a mi : dval quad [est a; 0] (indexed_rule fx ti a mi (est a)) (table h_indexed)
                          = Some (est (Indexed a mi)). Proof. reflexivity. Qed.
 Lemma tbl_raise : dval quad [] 0 (table h_trace) = None /\ dval quad [] 0 (table h_determinant) = None
   /\ dval quad [] 0 (table h_inverse) = None /\ dval quad [] 0 (table h_cofactor) = None
